@@ -144,6 +144,9 @@ fn spec_path(data: &Object, root: &str, idx: &[Expr]) -> Option<Result<Value, ()
                 }
             }
             (Value::Scalar(sv), None, Some("size")) if sv.type_name() == "string" => Value::scalar(sv.to_kstr().chars().count() as i64),
+            // a scalar has no members (whether `size` of a number means anything is left to the model)
+            (Value::Scalar(_), _, Some(t)) if t != "size" => return Some(Err(())),
+            (Value::Scalar(_), Some(_), _) => return Some(Err(())),
             (Value::Nil, _, _) => return Some(Err(())),
             _ => return None,
         };
@@ -280,6 +283,37 @@ pub fn run(ctx: &mut Ctx) {
                     }
                     ctx.emit(render_case("c07r", &k, &t, &d2, &[], &obs));
                 }
+            }
+        }
+    }
+    // --- paths rooted at a counter (a name only `increment` / `decrement` created): a counter is an integer,
+    // it has no members ---
+    {
+        for (tag_incr, times) in [(true, 1usize), (true, 2), (true, 11), (false, 1), (false, 2)] {
+            for idx in [
+                vec![], vec![lit_s("nope")], vec![lit_i(0)], vec![lit_i(-1)], vec![lit_s("first")], vec![lit_s("k")], vec![lit_s("a"), lit_s("b")], vec![var("idx0")],
+                vec![lit_s("size")],
+            ] {
+                let mut t: Vec<Node> = Vec::new();
+                for _ in 0..times {
+                    t.push(if tag_incr { Node::Incr("cnt".into()) } else { Node::Decr("cnt".into()) });
+                }
+                t.push(text("|"));
+                t.push(out(Expr::Var("cnt".into(), idx.clone())));
+                let obs = render_text(&parser, &src_tmpl(&t), &d);
+                // the counter's value after the tags: increment counts 0,1,2… and leaves n; decrement leaves -n
+                let value = if tag_incr { times as i64 } else { -(times as i64) };
+                let mut eff = d.clone();
+                eff.insert("cnt".into(), i(value));
+                let printed: String = if tag_incr { (0..times).map(|k| k.to_string()).collect() } else { (1..=times).map(|k| format!("-{}", k)).collect() };
+                let mut k = "counter-root".to_string();
+                match (spec_path(&eff, "cnt", &idx), &obs) {
+                    (Some(Ok(v)), Obs::Ok(s)) if *s == format!("{}|{}", printed, liquid_core::model::ValueView::render(&v)) => {}
+                    (Some(Err(())), Obs::Err(_)) => {}
+                    (None, _) => {}
+                    _ => k = "PATHLAW:counter-root".to_string(),
+                }
+                ctx.emit(render_case("c07r", &k, &t, &d, &[], &obs));
             }
         }
     }
